@@ -75,6 +75,8 @@ func (ex *Exec) modelZero(t types.Type) value {
 			return ex.timeZero()
 		case "math/big.Int":
 			return BigV{ex.b.I64(0)}
+		case "reflect.Value":
+			return RValV{}
 		case "strings.Builder":
 			return &BuilderV{}
 		}
@@ -93,6 +95,11 @@ func (ex *Exec) modelGlobal(g *ssa.Global) (value, bool) {
 }
 
 func (ex *Exec) modelMethod(recv iface, m *types.Func) value {
+	if recv.t == rtypeFake {
+		if mc := ex.reflectTypeMethod(recv, m.Name()); mc != nil {
+			return mc
+		}
+	}
 	if ft, ok := recv.t.(*fakeType); ok && ft != errFake {
 		if mc := ex.protoMethod(recv, m.Name()); mc != nil {
 			return mc
@@ -119,6 +126,14 @@ func (ex *Exec) modelMethod(recv iface, m *types.Func) value {
 }
 
 func (ex *Exec) modelEq(x, y value) (*smt.Term, bool) {
+	if a, ok := x.(RTypeV); ok {
+		b, ok := y.(RTypeV)
+		if !ok {
+			return ex.b.False, true
+		}
+		same := types.Identical(a.t, b.t) && ((a.recv == nil && b.recv == nil) || (a.recv != nil && b.recv != nil && types.Identical(a.recv, b.recv)))
+		return ex.b.Bool(same), true
+	}
 	return nil, false
 }
 
